@@ -180,7 +180,9 @@ Definition iteration (t : tables) : N := snd (info t).
 (* ---- open(): the version gate ----
    stored = what "SELECT version,client_version FROM info LIMIT 1" yields: None when the table or its row is missing
    (a new file), in which case the code sets version = -1, which equals no current schema version.
-   The test is  version != currentSchemaVersion || clientVersion != clientSchemaVersion. *)
+   The test is  version != currentSchemaVersion || clientVersion != clientSchemaVersion.
+   [stored] holds the two numbers AS READ (sqlite3_column_int, i.e. after truncation to 32 bits; the code itself
+   only ever writes values that fit, via "%d" of an int / uint32_t, and reads them back to the same bit pattern). *)
 Inductive open_dec := UseStored | Recreate | Reject.
 
 Definition versions_match (stored : option (N * N)) (cur : N * N) : bool :=
